@@ -10,6 +10,10 @@ package) x call plans (a subset of <= 4 flattened arguments with values) x {sync
 * oracle (model-independent): parameter names and order as declared; kwargs call == request call on the
   wire (decoded under the INPUT descriptors); mixed call raises ValueError and nothing reaches the server;
   sync == asyncio.
+Package LAYOUTS (second deepening round): the service and every request message are each declared in the API's root
+package, in a sub-package, in a nested sub-package or in a sibling sub-package (`spec["svc_sub"]`, `method["pkg"]`); the
+two facts the templates branch on — request package != service package, owner is a proto-plus type — are DERIVED by the
+model from the packages (`c05.mapping` in derived mode, `c05.packages`) and compared with the real schema objects.
 Shapes on which the real code is known to break the statement are kept out of the random stream only
 when they would take the whole emitted module down (SyntaxError / generator crash); they are replayed
 from corpus/C05 on every run, together with the regression inputs of repaired defects (which must pass).
@@ -117,17 +121,40 @@ SUB_PATHS = {
     "mask": ["paths"],
 }
 RAW_RISKY = {"op.error"}        # a MESSAGE field of a raw owner: open finding, kept rare (replayed from the corpus)
+# paths INTO a well-known type that proto-plus hands out as a python value (timedelta, datetime, scalar-or-None, native JSON):
+# the emitted `request.ttl.seconds = seconds` raises AttributeError in both clients — open finding, kept rare (corpus)
+MARSHAL_PATHS = {"ttl": ["seconds"], "ts": ["seconds"], "wrapped": ["value"], "swrap": ["value"], "lv": ["values"],
+                 "meta": ["fields"], "val": ["string_value"]}
+for _k, _v in MARSHAL_PATHS.items():
+    SUB_PATHS.setdefault(_k, []).extend(_v)
+MARSHAL_RISKY = {f"{k}.{x}" for k, v in MARSHAL_PATHS.items() for x in v}
+MARSHALLED = {"google.protobuf.Timestamp", "google.protobuf.Duration", "google.protobuf.Struct", "google.protobuf.Value",
+              "google.protobuf.ListValue", "google.protobuf.DoubleValue", "google.protobuf.FloatValue", "google.protobuf.Int64Value",
+              "google.protobuf.UInt64Value", "google.protobuf.Int32Value", "google.protobuf.UInt32Value", "google.protobuf.BoolValue",
+              "google.protobuf.StringValue", "google.protobuf.BytesValue"}
+# sub-packages (below acme.lib.v1) a service / a request message may be declared in
+SVC_SUBS = ["admin", "admin", "admin.deep", "common"]
+REQ_SUBS = ["", "common", "common.deep", "admin", "admin.deep", "other"]
 
 
-def gen_method(r: apigen.Rng, idx: int):
-    """one method of the 'flatten' profile (DESIGN §7.5 generator)"""
+def gen_method(r: apigen.Rng, idx: int, svc_sub=None):
+    """one method of the 'flatten' profile (DESIGN §7.5 generator); `svc_sub` not None = general package layout"""
     if r.maybe(0.22):
         dep = r.pick(SAFE_DEPS)
         pool = DEP_REQUESTS[dep][1]
         m = {"name": f"Dep{idx}", "dep": dep, "fields": None}
     else:
-        sub = r.maybe(0.15)
-        allowed = [n for n in (SUB_FIELDS if sub else FIELD_KINDS) if n not in ("parent", "retry", "timeout") and (sub or n != "part")]
+        general = svc_sub is not None
+        pkg = None
+        if general and r.maybe(0.55):
+            pkg = r.pick([x for x in REQ_SUBS if x != svc_sub] + ([svc_sub + ".sub", "", ""] if svc_sub else []))
+        sub = (not general) and r.maybe(0.15)
+        allowed = [n for n in (SUB_FIELDS if sub else FIELD_KINDS) if n not in ("parent", "retry", "timeout")]
+        if general and svc_sub.split(".")[0] == "common" and pkg is not None and pkg.split(".")[0] < "common":
+            # python import cycle of the emitted package (not this property's subject, reported to the coordinator): the root
+            # __init__ imports the sub-packages alphabetically; a type of `admin` that needs a type of `common` (Part) pulls in
+            # common/__init__, hence the service, hence the half-initialised admin module
+            allowed = [n for n in allowed if n != "part"]
         names = ["parent"] + r.sample(allowed, r.randint(3, 9))
         if "choice_b" in names and "choice_a" not in names:
             names.append("choice_a")
@@ -137,15 +164,18 @@ def gen_method(r: apigen.Rng, idx: int):
             if o in names:
                 names.remove(o); names.append(o)
         numbers = r.sample(range(1, 60), len(names))
-        m = {"name": f"{'Sub' if sub else 'Op'}{idx}", "dep": None, "fields": [[n, num] for n, num in zip(names, numbers)]}
+        m = {"name": f"{'Sub' if sub else 'Pkg' if pkg is not None else 'Op'}{idx}", "dep": None, "fields": [[n, num] for n, num in zip(names, numbers)]}
         if sub:
             m["sub"] = True
+        if pkg is not None:
+            m["pkg"] = pkg
         pool = []
         for n in names:
             pool.append(n)
             for sp in SUB_PATHS.get(n, []):
-                # (the paths known to run into protobuf's assignment rules are kept rare: they are replayed from the corpus)
-                if r.maybe(0.08 if f"{n}.{sp}" in RAW_RISKY else 0.5):
+                # (the paths known to run into protobuf's assignment rules / into marshalled values are kept rare: they are
+                # replayed from the corpus)
+                if r.maybe(0.08 if f"{n}.{sp}" in RAW_RISKY else 0.05 if f"{n}.{sp}" in MARSHAL_RISKY else 0.5):
                     pool.append(f"{n}.{sp}")
     nsig = r.pick([0, 1, 1, 2, 2, 3])
     sigs, used_terminal, used_oneof = [], set(FIXED_PARAMS), False
@@ -182,16 +212,48 @@ def gen_method(r: apigen.Rng, idx: int):
     return m
 
 
-def input_of(m):
+def _pkg(sub):
+    return PKG + ("." + sub if sub else "")
+
+
+def svc_package(spec):
+    """proto package of the file declaring the service"""
+    return _pkg((spec or {}).get("svc_sub") or "")
+
+
+def req_sub(m, spec=None):
+    """sub-package (below the API's package; "" = the root) of the file declaring the request message of a method:
+    `pkg` when given, "common" for the legacy `sub` flag, else the service's own package"""
+    if m.get("pkg") is not None:
+        return m["pkg"]
+    if m.get("sub"):
+        return "common"
+    return (spec or {}).get("svc_sub") or ""
+
+
+def general_layout(spec):
+    return bool(spec.get("svc_sub")) or any(m.get("pkg") is not None for m in spec["methods"])
+
+
+def input_of(m, spec=None):
     """(full name of the request message, request package differs from the service's package)"""
     if m["dep"]:
         return m["dep"].lstrip("."), True
-    if m.get("sub"):
-        return f"{SUBPKG}.{m['name']}Request", True
-    return f"{PKG}.{m['name']}Request", False
+    rp = _pkg(req_sub(m, spec))
+    return f"{rp}.{m['name']}Request", rp != svc_package(spec)
+
+
+def sub_spec(spec, methods):
+    """the spec reduced to some methods, package layout kept"""
+    return dict({k: v for k, v in spec.items() if k != "methods"}, methods=methods)
 
 
 def gen_spec(r: apigen.Rng, nmethods=6):
+    if r.maybe(0.3):
+        # general package layout: the service in the root package or in a (nested) sub-package, every request with the service,
+        # in the root package, or in another (nested / sibling / deeper) sub-package
+        svc_sub = r.pick(SVC_SUBS + ["", ""])
+        return {"svc_sub": svc_sub, "methods": [gen_method(r, i, svc_sub) for i in range(nmethods)]}
     return {"methods": [gen_method(r, i) for i in range(nmethods)]}
 
 
@@ -219,10 +281,70 @@ def _add(msg, name, number, kind, *extra, oneof=None):
     return msg.field(name, kind, number, repeated=rep, type_name=tn, optional=optional, oneof=of)
 
 
-def build_files(spec):
+def _helpers(f):
+    f.enum("Color", ["COLOR_UNSPECIFIED", "RED", "BLUE"])
+    inner = f.msg("Inner")
+    for (n, num, kind, *ex) in INNER_FIELDS:
+        if kind == "enum":
+            _add(inner, n, num, "enum", "Color")
+        else:
+            _add(inner, n, num, kind, *ex)
+    book = f.msg("Book")
+    for (n, num, kind, *ex) in BOOK_FIELDS:
+        _add(book, n, num, kind, *ex)
+    return book
+
+
+def _part(common):
+    part = common.msg("Part")
+    for (n, num, kind, *ex) in [("title", 2, "string"), ("count", 5, "int32"), ("marks", 1, "string", "rep"), ("class", 3, "string")]:
+        _add(part, n, num, kind, *ex)
+
+
+def build_files_general(spec):
+    """general package layout.  resources.proto (root package: Color, Inner, Book) <- common/common.proto (Part) <- one
+    requests file per request package <- the service's file (service + the requests of its own package)"""
     deps = sorted({DEP_REQUESTS[m["dep"]][0] for m in spec["methods"] if m["dep"]} |
                   {RAW_FILES[n] for m in spec["methods"] for n, _ in (m["fields"] or []) if n in RAW_FILES})
-    anysub = any(m.get("sub") for m in spec["methods"])
+    svc_sub = spec.get("svc_sub") or ""
+    res = apigen.File("acme/lib/v1/resources.proto", PKG)
+    _helpers(res)
+    part = apigen.File("acme/lib/v1/common/part.proto", SUBPKG)
+    _part(part)
+    files = {}
+    order = [res, part]
+    for m in spec["methods"]:
+        sub = req_sub(m, spec)
+        if m["dep"] or sub == svc_sub or sub in files:
+            continue
+        path = "acme/lib/v1/" + (sub.replace(".", "/") + "/" if sub else "") + "requests.proto"
+        files[sub] = apigen.File(path, _pkg(sub)).dep(*deps).dep(res.name, part.name)
+        order.append(files[sub])
+    f = apigen.File("acme/lib/v1/" + (svc_sub.replace(".", "/") + "/" if svc_sub else "") + "lib.proto", _pkg(svc_sub))
+    f.dep(*deps).dep(*[o.name for o in order])
+    order.append(f)
+    book = f".{PKG}.Book"
+    svc = f.service("Library")
+    for m in spec["methods"]:
+        if m["dep"]:
+            inp = m["dep"]
+        else:
+            sub = req_sub(m, spec)
+            rq = (f if sub == svc_sub else files[sub]).msg(m["name"] + "Request")
+            for n, num in m["fields"]:
+                kd = FIELD_KINDS[n]
+                _add(rq, n, num, kd[0], *kd[1:])
+            inp = rq
+        svc.method(m["name"], inp, book, sigs=m["sigs"], cs=bool(m.get("cs")))
+    return order
+
+
+def build_files(spec):
+    if general_layout(spec):
+        return build_files_general(spec)
+    deps = sorted({DEP_REQUESTS[m["dep"]][0] for m in spec["methods"] if m["dep"]} |
+                  {RAW_FILES[n] for m in spec["methods"] for n, _ in (m["fields"] or []) if n in RAW_FILES})
+    anysub = any(m.get("sub") or any(n == "part" for n, _ in (m["fields"] or [])) for m in spec["methods"])
     f = apigen.File("acme/lib/v1/lib.proto", PKG).dep(*deps)
     common = None
     if anysub:
@@ -331,7 +453,8 @@ def schema_json(codec, roots):
                 kind = "prim"
             fields.append({"name": fd.name, "number": fd.number, "kind": kind, "repeated": fd.label == fd.LABEL_REPEATED,
                            "map": bool(is_map), "value": fd.message_type is not None and fd.message_type.full_name == "google.protobuf.Value"})
-        out.append({"full": full, "proto_plus": d.file.package == PKG or d.file.package.startswith(PKG + "."), "fields": fields})
+        out.append({"full": full, "pkg": d.file.package, "proto_plus": d.file.package == PKG or d.file.package.startswith(PKG + "."),
+                    "fields": fields})
     return out
 
 
@@ -468,6 +591,31 @@ def nondefault(r, codec, fd):
     return one()
 
 
+def marshal_chain(ch):
+    """the path runs INTO a well-known type that a proto-plus parent hands out as a python value"""
+    return len(ch) >= 2 and ch[-1][0].full_name in MARSHALLED and is_own(ch[-2][0])
+
+
+def marshal_value(r, wkt, leaf):
+    """(proto-JSON value of the well-known type, value of the leaf field inside it) — consistent with each other"""
+    n = r.randint(1, 99)
+    if wkt == "google.protobuf.Duration":
+        return (f"{n}s", str(n)) if leaf == "seconds" else (f"0.{n:09d}s", n)
+    if wkt == "google.protobuf.Timestamp":
+        return (f"1970-01-01T00:00:{n % 60:02d}Z", str(n % 60)) if leaf == "seconds" else (f"1970-01-01T00:00:00.{n:09d}Z", n)
+    if wkt == "google.protobuf.ListValue":
+        v = r.pick(MORE_SAMPLES[wkt]); return (v, v)
+    if wkt == "google.protobuf.Struct":
+        v = r.pick(MORE_SAMPLES[wkt]); return (v, v)
+    if wkt == "google.protobuf.Value":
+        return ("sv", "sv")
+    if wkt == "google.protobuf.StringValue":
+        return ("w", "w")
+    if wkt == "google.protobuf.BoolValue":
+        return (True, True)
+    return (n, n)
+
+
 def set_path(d, path, v):
     segs = path.split(".")
     for s in segs[:-1]:
@@ -489,10 +637,18 @@ def gen_plan(r, codec, input_full, params, allow_overlap=True):
     picked = r.sample(params, k)
     picked.sort(key=lambda x: params.index(x))
     # shorter paths first so that a leaf below a given message lands inside it
-    full, given, falsy = {}, [], []
+    full, given, falsy, leaves = {}, [], [], {}
     for (p, param, attr, ch) in sorted(picked, key=lambda x: len(x[0].split("."))):
         owner, fd = ch[-1]
         if not allow_overlap and any(p.startswith(q + ".") or q.startswith(p + ".") for q in given + falsy):
+            continue
+        if marshal_chain(ch):
+            parent = p.rsplit(".", 1)[0]
+            if get_path(full, parent) is None:
+                wv, lv = marshal_value(r, owner.full_name, fd.name)
+                set_path(full, parent, wv)
+                leaves[p] = lv
+                given.append(p)
             continue
         container = fd.label == fd.LABEL_REPEATED
         pd = present_default(fd)
@@ -510,7 +666,7 @@ def gen_plan(r, codec, input_full, params, allow_overlap=True):
                 if other.name != fd.name and isinstance(parent, dict):
                     parent.pop(other.name, None)
         given.append(p)
-    return given, falsy, codec.normal(input_full, full)
+    return (given, falsy, codec.normal(input_full, full), leaves) if leaves else (given, falsy, codec.normal(input_full, full))
 
 
 # ------------------------------------------------------------------------------------------------
@@ -548,10 +704,10 @@ def from_val(codec, desc, val):
     return out
 
 
-def arg_val(codec, desc, full, path, chain):
+def arg_val(codec, desc, full, path, chain, leaves=None):
     """the Val of the argument passed for `path` (taken from the full valuation; unset -> the falsy default)"""
     owner, fd = chain[-1]
-    v = get_path(full, path)
+    v = leaves[path] if leaves and path in leaves else get_path(full, path)
     if v is None:
         if fd.message_type is not None and fd.message_type.GetOptions().map_entry:
             return {"m": []}
@@ -711,6 +867,15 @@ def classify(kind, flags, plan=None, msg=""):
     if plan is not None:
         given, falsy = plan[0], plan[1]
         rawrep, rawmsg = plan[2] if len(plan) > 2 else ([], [])
+        marshal, misroute = plan[3] if len(plan) > 3 else ([], [])
+        # a key INTO a marshalled well-known type: `request.ttl` is a timedelta / None
+        if kind in ("sync-kwargs-raised", "async-kwargs-raised") and any(p in marshal for p in given) and \
+                ("readonly attribute" in msg or "object has no attribute" in msg or "not writable" in msg):
+            return "marshalled-owner:attributeerror"
+        # the asyncio constructor call of a cross-package request puts a dotted key into the TOP-LEVEL field of the same name
+        if kind in ("async-kwargs-vs-request", "sync-async") and "cross-dotted" in flags and not msg and \
+                any(p in misroute for p in given):
+            return "async-cross-package-dotted-key:ctor-misroutes"
         if "Assignment not allowed" in msg:
             if kind in ("sync-kwargs-raised", "async-kwargs-raised", "sync-async") and any(p in rawmsg for p in given):
                 return "raw-owner-message:assign-attributeerror"
@@ -734,23 +899,29 @@ def run_api(ctx, r, spec, label, plans=None, expect_flags=False):
     req = apigen.request(files, "transport=grpc,autogen-snippets=false")
     codec = Codec5(files)
     info = {}
+    svc_pkg = svc_package(spec)
     for m in spec["methods"]:
-        input_full, cross = input_of(m)
+        input_full, cross = input_of(m, spec)
         want = expected_params(codec, input_full, m["sigs"], reserved, cross)
+        top = {py_attr(codec.pool.FindMessageTypeByName(input_full), fd, reserved)
+               for fd in codec.pool.FindMessageTypeByName(input_full).fields}
         info[m["name"]] = dict(input=input_full, cross=cross, flags=shape_flags(codec, input_full, m["sigs"], reserved, cross),
-                               want=want, cs=bool(m.get("cs")), raw=raw_keys(want, cross))
+                               want=want, cs=bool(m.get("cs")), raw=raw_keys(want, cross),
+                               marshal=[w[0] for w in (want or []) if marshal_chain(w[3])],
+                               misroute=[w[0] for w in (want or []) if cross and "." in w[0] and w[1] in top])
     allflags = set().union(*[i["flags"] for i in info.values()]) if info else set()
     payload0 = {"spec": spec}
     # ------------------------------------------------------------------ T2: schema side
     try:
         api, _ = genrun.build_api(req)
-        svc = api.services[f"{PKG}.Library"]
+        svc = api.services[f"{svc_pkg}.Library"]
     except BaseException as e:  # noqa
         api = svc = None
         build_err = (genrun.crash_signature(e), str(e)[:200])
     schema = schema_json(codec, [i["input"] for i in info.values()])
-    mops = [{"op": "c05.mapping", "schema": schema, "input": info[m["name"]]["input"], "cross_pkg": info[m["name"]]["cross"],
-             "sigs": m["sigs"], "client_streaming": bool(m.get("cs"))} for m in spec["methods"]]
+    # DERIVED mode: the model computes `cross_pkg` and every owner's proto-plus flag from the packages of the declaring files
+    mops = [{"op": "c05.mapping", "schema": schema, "input": info[m["name"]]["input"], "api_package": PKG, "proto_plus_deps": [],
+             "service_package": svc_pkg, "sigs": m["sigs"], "client_streaming": bool(m.get("cs"))} for m in spec["methods"]]
     mres = ctx.driver.ask(mops)
     model = {m["name"]: mo for m, mo in zip(spec["methods"], mres)}
     for m in spec["methods"]:
@@ -759,7 +930,15 @@ def run_api(ctx, r, spec, label, plans=None, expect_flags=False):
             ctx.unsupported += 1
             continue
         ctx.traces += 1
-        ctx.count("request_package", "dependency" if m["dep"] else "sub-package" if m.get("sub") else "own")
+        rs = None if m["dep"] else req_sub(m, spec)
+        ss = spec.get("svc_sub") or ""
+        ctx.count("request_package", "dependency" if m["dep"] else "sub-package" if m.get("sub") else "own" if not general_layout(spec) else
+                  "layout:same" if rs == ss else "layout:request-below-service" if rs.startswith(ss + ".") or (not ss and rs) else
+                  "layout:request-above-service" if ss.startswith(rs + ".") or (not rs and ss) else "layout:sibling")
+        ctx.count("service_package", "root" if not ss else "nested-sub-package" if "." in ss else "sub-package")
+        # the statement's reading of "different package" against the model's derivation
+        if "cross_pkg" in mo and mo["cross_pkg"] != inf["cross"]:
+            ctx.disagree("T2:c05.cross_pkg", f"{m['name']}: model derives cross_pkg={mo['cross_pkg']} for request {inf['input']} of a service in {svc_pkg}", payload0)
         ctx.count("signatures", len(m["sigs"]))
         if svc is None:
             if "error" not in mo:
@@ -769,7 +948,9 @@ def run_api(ctx, r, spec, label, plans=None, expect_flags=False):
         try:
             ff = meth.flattened_fields
             impl = {"keys": list(ff.keys()), "params": [f.name for f in ff.values()],
-                    "flags": [[bool(f.repeated), bool(f.map)] for f in ff.values()]}
+                    "flags": [[bool(f.repeated), bool(f.map)] for f in ff.values()],
+                    "raw": [not f.meta.address.is_proto_plus_type for f in ff.values()],
+                    "cross": meth.input.ident.package != meth.ident.package}
         except KeyError as e:
             impl = {"error": "KeyError"}
         if "error" in impl or "error" in mo:
@@ -779,6 +960,10 @@ def run_api(ctx, r, spec, label, plans=None, expect_flags=False):
         mflags = [[e["repeated"], e["map"]] for e in mo["entries"]]
         if impl["keys"] != mo["keys"] or impl["params"] != mo["params"] or impl["flags"] != mflags:
             ctx.disagree("T2:c05.fields_mapping", f"{m['name']}: impl {impl} vs model keys={mo['keys']} params={mo['params']} flags={mflags}", payload0)
+        # the two facts the templates branch on, derived by the model from the packages
+        if impl["cross"] != mo.get("cross_pkg") or impl["raw"] != [e["raw_owner"] for e in mo["entries"]]:
+            ctx.disagree("T2:c05.packages", f"{m['name']}: real cross={impl['cross']} raw owners={impl['raw']} vs model "
+                         f"cross={mo.get('cross_pkg')} raw owners={[e['raw_owner'] for e in mo['entries']]}", payload0)
         for e in mo["entries"]:
             ctx.count("key_shape", ("dotted" if "." in e["key"] else "top") + ":" +
                       ("map" if e["map"] else "repeated" if e["repeated"] else "singular"))
@@ -799,7 +984,7 @@ def run_api(ctx, r, spec, label, plans=None, expect_flags=False):
         if "unresolvable" in fl:
             ctx.assume("a signature naming a field the request does not have aborts generation with KeyError (outside the quantifier)")
         else:
-            ctx.fail(classify("generation-crash", fl, msg=err[0]), f"generator raised {err[0]}: {err[1]}", {"spec": {"methods": bad[:1]}})
+            ctx.fail(classify("generation-crash", fl, msg=err[0]), f"generator raised {err[0]}: {err[1]}", {"spec": sub_spec(spec, bad[:1])})
         return
     if model_gen_error:
         ctx.disagree("T3:c05.generation", "model raises KeyError but the generator produced a library", payload0)
@@ -826,7 +1011,9 @@ def run_api(ctx, r, spec, label, plans=None, expect_flags=False):
                 meth = svc.methods[m["name"]]
                 myplans = plans.get(m["name"], []) if plans is not None else \
                     [gen_plan(r, codec, inf["input"], want) for _ in range(ctx.n(3, 6))]
-                for (given, falsy, full) in myplans:
+                for plan_ in myplans:
+                    given, falsy, full = plan_[:3]
+                    leaves = plan_[3] if len(plan_) > 3 else {}
                     keys = [p for p in declared_paths(m["sigs"]) if p in given or p in falsy]
                     if not keys:
                         continue
@@ -836,14 +1023,14 @@ def run_api(ctx, r, spec, label, plans=None, expect_flags=False):
                             "plain_containers": r.maybe(0.7)}
                     kw = [[bypath[p][1], bypath[p][2]] for p in keys]
                     mixed_key = r.pick(keys)
-                    literal = r.maybe(0.75)
+                    literal = r.maybe(0.75) or bool(leaves)
                     ctx.count("argument_source", "literal" if literal else "derived-from-bytes")
                     if literal:
                         # what a caller writes: python literals / objects for every argument, the request built with
                         # keyword arguments, as a hand-written dict, or passed positionally; every call run twice
                         def lit_kw(p):
                             owner, fd = bypath[p][3][-1]
-                            v = get_path(full, p)
+                            v = leaves[p] if p in leaves else get_path(full, p)
                             return [bypath[p][1], falsy_literal(fd) if v is None else lit_field(r, fd, v, reserved, types_mod)]
                         rq = lit_request(r, codec, inf["input"], full, reserved, types_mod)
                         form = r.pick(["instance", "dict", "positional"]) if not m["dep"] else r.pick(["instance", "positional"])
@@ -863,7 +1050,7 @@ def run_api(ctx, r, spec, label, plans=None, expect_flags=False):
                         dict_ok = not inf["cross"] and not any(f[0] in NO_TO_DICT for f in (m["fields"] or []))
                         calls.append(dict(base, mode=r.pick(["request-instance", "request-dict"]) if dict_ok else "request-instance"))
                         calls.append(dict(base, mode="mixed", kwargs=[[bypath[mixed_key][1], bypath[mixed_key][2]]]))
-                    index.append((m, given, falsy, full, keys, mixed_key))
+                    index.append((m, given, falsy, full, keys, mixed_key, leaves))
         for asy in (False, True):
             ops.append({"op": "c05_session", "client": loc["async_client" if asy else "client"],
                         "transport": loc["grpc_asyncio" if asy else "grpc"], "async": asy, "calls": calls})
@@ -877,9 +1064,9 @@ def run_api(ctx, r, spec, label, plans=None, expect_flags=False):
             msg = "; ".join(f"{e[1]}: {e[2]}" for e in imp["errors"][:2])
             if not emit_bad:
                 ctx.disagree("T3:c05.emit", f"emitted service module does not import ({msg}) but the model's emitCheck passes", payload0)
-            bad = [m for m in spec["methods"] if model_emit[m["name"]] != "ok"] or spec["methods"]
-            ctx.fail(classify("import-failed", info[bad[0]["name"]]["flags"], msg=msg),
-                     f"the emitted client module cannot be imported: {msg}", {"spec": {"methods": bad[:1]}})
+            bad = [m for m in spec["methods"] if model_emit[m["name"]] != "ok"]
+            ctx.fail(classify("import-failed", info[(bad or spec["methods"])[0]["name"]]["flags"], msg=msg),
+                     f"the emitted client module cannot be imported: {msg}", {"spec": sub_spec(spec, bad[:1]) if bad else spec})
             return
         if emit_bad:
             ctx.disagree("T3:c05.emit", f"model predicts {model_emit} but the emitted module imports", payload0)
@@ -896,7 +1083,7 @@ def run_api(ctx, r, spec, label, plans=None, expect_flags=False):
                 if inf["cs"]:
                     ctx.traces += 1
                     if names != ["self", "requests", "retry", "timeout", "metadata"]:
-                        ctx.fail("client-streaming-signature", f"{m['name']} ({cl}): client-streaming method has parameters {names}", {"spec": {"methods": [m]}})
+                        ctx.fail("client-streaming-signature", f"{m['name']} ({cl}): client-streaming method has parameters {names}", {"spec": sub_spec(spec, [m])})
                     if names != model[m["name"]]["param_list"]:
                         ctx.disagree("T3:c05.param_list", f"{m['name']} ({cl}): emitted {names} vs model {model[m['name']]['param_list']}", payload0)
                     continue
@@ -908,14 +1095,14 @@ def run_api(ctx, r, spec, label, plans=None, expect_flags=False):
                 ctx.traces += 1
                 if got != want or not kinds_ok or names[-3:] != ["retry", "timeout", "metadata"]:
                     ctx.fail(classify("parameter-order", inf["flags"]),
-                             f"{m['name']} ({cl}): emitted parameters {names}, declared order {want}", {"spec": {"methods": [m]}})
+                             f"{m['name']} ({cl}): emitted parameters {names}, declared order {want}", {"spec": sub_spec(spec, [m])})
                 if names != model[m["name"]]["param_list"]:
                     ctx.disagree("T3:c05.param_list", f"{m['name']} ({cl}): emitted {names} vs model {model[m['name']]['param_list']}", payload0)
         if not calls:
             return
         # ---- the model on the same plans
         cops = []
-        for (m, given, falsy, full, keys, mixed_key) in index:
+        for (m, given, falsy, full, keys, mixed_key, leaves) in index:
             inf, mo = info[m["name"]], model[m["name"]]
             desc = codec.pool.FindMessageTypeByName(inf["input"])
             bypath = {w[0]: w for w in inf["want"]}
@@ -923,11 +1110,11 @@ def run_api(ctx, r, spec, label, plans=None, expect_flags=False):
             slots, args_kw, args_mixed = [], [], []
             for e in mo["entries"]:
                 slots.append({"path": e["path"], "repeated": e["repeated"], "map": e["map"], "value": e["value"], "ctor": e["ctor"],
-                              "raw_owner": e["raw_owner"], "is_msg": e["is_msg"]})
+                              "raw_owner": e["raw_owner"], "is_msg": e["is_msg"], "marshal_owner": e["marshal_owner"]})
                 # which declared path does this entry serve?  (matched by parameter name: that is how the caller addresses it)
                 p = next((p for p in keys if bypath[p][1] == e["param"]), None)
-                args_kw.append(arg_val(codec, desc, full, p, bypath[p][3]) if p else None)
-                args_mixed.append(arg_val(codec, desc, full, mixed_key, bypath[mixed_key][3]) if bypath[mixed_key][1] == e["param"] else None)
+                args_kw.append(arg_val(codec, desc, full, p, bypath[p][3], leaves) if p else None)
+                args_mixed.append(arg_val(codec, desc, full, mixed_key, bypath[mixed_key][3], leaves) if bypath[mixed_key][1] == e["param"] else None)
             fullv = to_val(codec, desc, full)
             none = [None] * len(slots)
             cops.append({"op": "c05.call", "same_pkg": not inf["cross"], "slots": slots, "args": args_kw, "request": None})
@@ -941,11 +1128,13 @@ def run_api(ctx, r, spec, label, plans=None, expect_flags=False):
                 ctx.fail("session-failed", f"T3 session failed ({'async' if asy else 'sync'}): {str(s)[-400:]}", payload0)
                 return
             decoded[asy] = s["calls"]
-        for i, (m, given, falsy, full, keys, mixed_key) in enumerate(index):
+        for i, (m, given, falsy, full, keys, mixed_key, leaves) in enumerate(index):
             inf = info[m["name"]]
             desc = codec.pool.FindMessageTypeByName(inf["input"])
-            plan = (given, falsy, inf["raw"])
-            pl = {"spec": {"methods": [m]}, "plans": {m["name"]: [[given, falsy, full]]}}
+            plan = (given, falsy, inf["raw"], (inf["marshal"], inf["misroute"]))
+            pl = {"spec": sub_spec(spec, [m]),
+                  "plans": {m["name"]: [[given, falsy, full] + ([leaves] if leaves else [])]}}
+            ctx.count("marshal_key_given", any(p in inf["marshal"] for p in given))
             ctx.count("args_given", len(keys)); ctx.count("falsy_args", len(falsy))
             ctx.count("overlap", overlapping(given))
             seen = {}
@@ -1018,38 +1207,91 @@ def corpus_entries():
 def t2_paths(ctx, r):
     """get_field / _fields_mapping on arbitrary (also unresolvable) signatures, without rendering anything"""
     spec = gen_spec(r, 4)
+    # a dependency message with a reserved-word field (`type`): KeyError unless its package is declared proto-plus
+    spec["methods"].append({"name": "Dep9", "dep": ".google.api.ResourceDescriptor", "fields": None})
     for m in spec["methods"]:
         m["sigs"] = []
+    # option `proto-plus-deps`: dependency packages whose python types are proto-plus (Field.name suffixes reserved words there)
+    ppd = r.sample(["google.iam.v1", "google.api", "google.rpc", "google.longrunning", "google.type"], r.randint(1, 3)) if r.maybe(0.4) else []
     files = build_files(spec)
-    req = apigen.request(files, "transport=grpc,autogen-snippets=false")
+    req = apigen.request(files, "transport=grpc,autogen-snippets=false" + (",proto-plus-deps=" + "+".join(ppd) if ppd else ""))
     codec = Codec5(files)
     api, _ = genrun.build_api(req)
-    svc = api.services[f"{PKG}.Library"]
+    svc_pkg = svc_package(spec)
+    svc = api.services[f"{svc_pkg}.Library"]
+    ctx.count("proto_plus_deps", len(ppd))
     ops, cases = [], []
     for m in spec["methods"]:
-        input_full, cross = input_of(m)
+        input_full, cross = input_of(m, spec)
         schema = schema_json(codec, [input_full])
         top = [f[0] for f in m["fields"]] if m["fields"] else DEP_REQUESTS[m["dep"]][1]
         pool = list(top) + [f"{t}.{s}" for t in top for s in SUB_PATHS.get(t.split(".")[0], [])] + \
             r.sample(["nosuch", "parent.x", "tags.x", "book.nosuch", "books.name", "book.inner.marks.x", "labels.key", "book.import.title", "class_", ""], 2)
         for _ in range(ctx.n(12, 40)):
             sigs = [r.pick([",", ", ", " ,"]).join(r.sample(pool, min(len(pool), r.randint(0, 4)))) for _ in range(r.randint(1, 3))]
-            ops.append({"op": "c05.mapping", "schema": schema, "input": input_full, "cross_pkg": cross, "sigs": sigs})
+            ops.append({"op": "c05.mapping", "schema": schema, "input": input_full, "api_package": PKG, "proto_plus_deps": ppd,
+                        "service_package": svc_pkg, "sigs": sigs})
             cases.append((m, sigs))
     res = ctx.driver.ask(ops)
     for (m, sigs), mo in zip(cases, res):
         meth = svc.methods[m["name"]]
         try:
             ff = meth._fields_mapping(sigs)
-            impl = {"keys": list(ff.keys()), "params": [f.name for f in ff.values()]}
+            impl = {"keys": list(ff.keys()), "params": [f.name for f in ff.values()],
+                    "raw": [not f.meta.address.is_proto_plus_type for f in ff.values()]}
         except KeyError:
             impl = {"error": "KeyError"}
-        ctx.case({"sigs": sigs, "mapping": impl}, distinct_key=["t2", m["dep"] or json.dumps(m["fields"]), json.dumps(sigs)])
+        ctx.case({"sigs": sigs, "mapping": impl}, distinct_key=["t2", m["dep"] or json.dumps(m["fields"]), json.dumps(sigs), json.dumps(ppd)])
         ctx.traces += 1
         ctx.count("t2_outcome", "KeyError" if "error" in impl else "mapping")
-        got = {"error": "KeyError"} if "error" in mo else {"keys": mo["keys"], "params": mo["params"]}
+        got = {"error": "KeyError"} if "error" in mo else {"keys": mo["keys"], "params": mo["params"], "raw": [e["raw_owner"] for e in mo["entries"]]}
         if got != impl:
-            ctx.disagree("T2:c05._fields_mapping", f"sigs {sigs}: impl {impl} vs model {got}", {"spec": {"methods": [dict(m, sigs=sigs)]}})
+            ctx.disagree("T2:c05._fields_mapping", f"sigs {sigs}: impl {impl} vs model {got}", {"spec": sub_spec(spec, [dict(m, sigs=sigs)])})
+
+
+def t2_packages(ctx, r):
+    """`Address.is_proto_plus_type` and the package comparison of the templates on arbitrary package names (the real
+    metadata.Address / naming.Naming objects) vs Lean `isProtoPlusType` / `crossPkgOf`"""
+    from gapic.schema import metadata, naming
+    segs = ["acme", "lib", "v1", "v1beta", "v1x", "common", "deep", "admin", "google", "iam", "rpc", "api", "v", "li", "lib_v1"]
+    ops, cases = [], []
+    for _ in range(ctx.n(30, 300)):
+        api_pkg = ".".join(r.sample(segs, r.randint(1, 3))) if r.maybe(0.5) else PKG
+
+        def variant():
+            k = r.randint(0, 5)
+            if k == 0:
+                return api_pkg
+            if k == 1:
+                return api_pkg + "." + ".".join(r.sample(segs, r.randint(1, 2)))
+            if k == 2:
+                return api_pkg + r.pick(["beta", "x", "1", "_"])              # a STRING prefix that is no sub-package
+            if k == 3:
+                return api_pkg[:max(1, len(api_pkg) - r.randint(1, 3))].rstrip(".") or "x"
+            if k == 4:
+                return ".".join(api_pkg.split(".")[:-1]) or "x"
+            return ".".join(r.sample(segs, r.randint(1, 3)))
+        pkgs = [variant() for _ in range(6)]
+        deps = r.sample(pkgs, r.randint(0, 2)) + ([r.pick(["google.iam.v1", "google.rpc"])] if r.maybe(0.3) else [])
+        svc_pkg = r.pick(pkgs)
+        ops.append({"op": "c05.packages", "api_package": api_pkg, "proto_plus_deps": deps, "service_package": svc_pkg, "pkgs": pkgs})
+        cases.append((api_pkg, deps, svc_pkg, pkgs))
+    for (api_pkg, deps, svc_pkg, pkgs), mo in zip(cases, ctx.driver.ask(ops)):
+        n = naming.NewNaming(proto_package=api_pkg, proto_plus_deps=tuple(deps))
+        sa = metadata.Address(name="Library", module="lib", package=tuple(svc_pkg.split(".")), api_naming=n)
+        for p, got in zip(pkgs, mo):
+            a = metadata.Address(name="Req", module="lib", package=tuple(p.split(".")), api_naming=n)
+            impl = {"proto_plus": bool(a.is_proto_plus_type), "cross": a.package != sa.package}
+            ctx.case({"api": api_pkg, "deps": deps, "service": svc_pkg, "package": p, "impl": impl}, distinct_key=["pkg", api_pkg, json.dumps(deps), svc_pkg, p])
+            ctx.traces += 1
+            ctx.count("package_relation", "api" if p == api_pkg else "sub-package" if p.startswith(api_pkg + ".") else
+                      "string-prefix-only" if p.startswith(api_pkg) else "listed-dep" if p in deps else "foreign")
+            if impl != got:
+                ctx.disagree("T2:c05.is_proto_plus_type", f"api {api_pkg} deps {deps} service {svc_pkg} package {p}: impl {impl} vs model {got}",
+                             {"packages": {"api_package": api_pkg, "proto_plus_deps": deps, "service_package": svc_pkg, "pkgs": [p]}})
+            # oracle (the docstring of is_proto_plus_type): the API's package and its sub-packages hold proto-plus types
+            if (p == api_pkg or p.startswith(api_pkg + ".")) and not impl["proto_plus"]:
+                ctx.fail("sub-package-not-proto-plus", f"package {p} of API {api_pkg} is not a proto-plus package", {"packages": ops[0]})
 
 
 def run(ctx):
@@ -1061,6 +1303,9 @@ def run(ctx):
     ctx.assume("a flattened argument holding the default of a field reached through a dotted path ('' / 0 / []) is excluded "
                "from the kwargs==request oracle: whether the parent messages count as set is not fixed by the statement")
     ctx.assume("at most one member of a oneof is flattened per method (oneof clearing is protobuf's, not the generator's)")
+    ctx.assume("package layouts: a message of a sub-package that sorts BEFORE the service's sub-package does not use a type of the "
+               "service's sub-package (the emitted package then has a python import cycle: acme.lib_v1/__init__ imports the "
+               "sub-packages alphabetically — a defect of the emitted package layout, not of flattening)")
     ctx.assume("a signature path INTO a well-known type that proto-plus marshals to a python value (\"ttl.seconds\", \"ts.nanos\", "
                "\"wrapped.value\", \"meta.fields\") is not generated (it fails in both clients: the attribute is set on a temporary); "
                "paths into unmarshalled raw messages (FieldMask, google.rpc.Status, IAM Policy, Operation) ARE generated")
@@ -1069,7 +1314,8 @@ def run(ctx):
         run_api(ctx, ctx.rng("corpus", name), blob["spec"], f"corpus:{name}", plans=blob.get("plans"))
     for k in range(ctx.n(1, 12)):
         t2_paths(ctx, ctx.rng("t2", k))
-    for a in range(ctx.n(18, 300)):
+    t2_packages(ctx, ctx.rng("t2pkg"))
+    for a in range(ctx.n(18, 400)):
         run_api(ctx, r, gen_spec(r, ctx.n(6, 8)), f"api{a}")
 
 
@@ -1082,6 +1328,17 @@ def search(ctx):
 def replay(ctx, payload):
     import leanio
     ctx.driver = leanio.Driver()
+    if "packages" in payload:
+        from gapic.schema import metadata, naming
+        q = payload["packages"]
+        mo = ctx.driver.ask([dict(q, op="c05.packages")])[0]
+        n = naming.NewNaming(proto_package=q["api_package"], proto_plus_deps=tuple(q["proto_plus_deps"]))
+        for p, got in zip(q["pkgs"], mo):
+            a = metadata.Address(name="Req", module="lib", package=tuple(p.split(".")), api_naming=n)
+            print(f"  package {p}: impl proto_plus={a.is_proto_plus_type} vs model {got}")
+            if bool(a.is_proto_plus_type) != got["proto_plus"]:
+                ctx.disagree("T2:c05.is_proto_plus_type", f"{p}", payload)
+        return not ctx.disagreements
     run_api(ctx, ctx.rng("replay"), payload["spec"], "replay", plans=payload.get("plans"))
     for f in ctx.failures:
         print("  failure:", f["key"], "-", f["what"])
@@ -1103,9 +1360,19 @@ CLAIM = dict(
           'value_error_iff_mixed), AttributeError exactly when a given key ends in a field of a RAW protobuf sub-message that protobuf '
           'refuses to assign (attribute_error_iff, async_raw_ok_of_sync); (4) every rendered request.<key> is a keyword-free attribute path that proto-plus resolves to the fields '
           'get_field found, reserved words and keywords in any position included (key_attr_resolves, emit_never_keyword_attr; regression for the '
-          'repaired §9-F2: keyword_segment_regression). Six *_counterexample theorems pin the inputs '
+          'repaired §9-F2: keyword_segment_regression); (5) PACKAGE LAYOUTS: the two facts the templates branch on are derived from the packages of the '
+          'declaring files — is_proto_plus_type is exactly "the API package is a string prefix, or listed in proto-plus-deps" (isProtoPlusType_iff, '
+          'api_package_is_proto_plus, sub_package_is_proto_plus at any depth, proto_plus_dep_is_proto_plus), a request in a package below or above the '
+          'service\'s is a different-package request (sub_package_request_is_cross, parent_package_request_is_cross, same_package_not_cross) — and (2), (3) '
+          'hold for EVERY layout of service and request over root / sub / nested / sibling / dependency packages (kwargs_equiv_request_any_layout, '
+          'sync_async_agree_any_layout, mixed_call_rejected_any_layout, cross_repeated_second_pass_only); (6) the asyncio constructor call of a '
+          'different-package request is characterised completely: ValueError iff some terminal name is no top-level field, else every given key sets the '
+          'TOP-LEVEL field of that name (apply_async_cross_char); (7) a key INTO a marshalled well-known type raises AttributeError in every client that '
+          'applies keys by attribute (attribute_error_iff, marshal_owner_needs_dotted, marshal_owner_needs_proto_plus_parent). Nine *_counterexample theorems pin the inputs '
           'where the real code leaves the statement (all reproduced on /repo, see findings/C05.json). Tie: T1 bridge lemmas for RESERVED_NAMES '
-          'and keyword.kwlist; T2 the real flattened_fields/_fields_mapping vs the model on generated and unresolvable signatures; T3 the emitted '
+          'and keyword.kwlist; T2 the real flattened_fields/_fields_mapping vs the model on generated and unresolvable signatures (also under the option '
+          'proto-plus-deps), the real Address.is_proto_plus_type / package comparison vs isProtoPlusType / crossPkgOf on arbitrary package names, and the '
+          'model-derived cross-package / raw-owner flags vs the real schema objects of every generated method; T3 the emitted '
           'sync and asyncio clients against a loopback gRPC server (inspect.signature; bytes of kwargs / request / mixed calls decoded under the '
           'input descriptors) vs the model; arguments are LITERALS a caller writes (python scalars, bytes, enum members, datetime/timedelta, native '
           'JSON for Struct/Value/ListValue, raw protobuf objects, generated classes built by keyword, hand-written dicts, positional request), '
@@ -1114,8 +1381,9 @@ CLAIM = dict(
               '+ differential T2 (schema functions) and T3 (emitted sync/asyncio clients on loopback gRPC) + wire-level oracle',
     design="7.5",
     note=('Values are wire-level trees with opaque list items / map entries; oneof clearing, proto-plus marshal rules for well-known types and '
-          'python-level type errors are outside the model (the generator keeps to one oneof member per method and treats well-known types as '
-          'leaves). The kwargs==request oracle is not applied to default-valued arguments of dotted keys (presence of the parents is not fixed '
-          'by the statement); sync==asyncio is. Requests from a proto sub-package of the API (proto-plus types with a different package tuple) '
-          'are not generated. Client-streaming methods (no flattened parameter at all) are modelled and checked by signature only. Six known findings are listed in findings/C05.json and replayed from corpus/C05 on every run.'),
+          'python-level type errors are outside the model (the generator keeps to one oneof member per method; a signature path INTO a marshalled '
+          'well-known type is modelled as the AttributeError it raises). The kwargs==request oracle is not applied to default-valued arguments of dotted keys (presence of the parents is not fixed '
+          'by the statement); sync==asyncio is. Package layouts: 30% of the generated APIs declare the service in the root package or in a (nested) '
+          'sub-package and every request with the service, in the root, or in another (nested / sibling / deeper) sub-package; one layout is excluded because '
+          'the emitted PACKAGE has a python import cycle there (see the assumptions). Client-streaming methods (no flattened parameter at all) are modelled and checked by signature only. Eight known findings are listed in findings/C05.json and replayed from corpus/C05 on every run.'),
 )
